@@ -100,6 +100,8 @@ paths:
       parameters:
         - {name: n, in: query, required: false, schema: {type: integer}}
         - {name: ck, in: cookie, required: false, schema: {type: integer}}
+        - {name: mp, in: query, required: false, style: form, explode: false, schema: {type: object, additionalProperties: {type: integer}}}
+        - {name: X-Mp, in: header, required: false, schema: {type: object, additionalProperties: {type: integer}}}
       requestBody:
         required: true
         content:
@@ -248,6 +250,16 @@ func matrixRequests() []Req {
 	add(f("body", "", "user=al%zzice", "form with a malformed escape in a required field"))
 	add(f("param", "n=4&n=5", "user=alice", "optional scalar query parameter given twice"))
 	add(f("param", "n=x", "user=alice", "ill-typed optional query parameter"))
+	add(f("valid", "mp=a,1,b,2", "user=alice", "map-typed query parameter"))
+	add(f("param", "mp=a,x", "user=alice", "map-typed query parameter with an ill-typed value"))
+	add(f("unclassified", "mp=a", "user=alice", "map-typed query parameter with a name and no value"))
+	add(f("unclassified", "mp=,", "user=alice", "map-typed query parameter made of separators"))
+	r = f("valid", "", "user=alice", "map-typed header parameter")
+	r.Header["X-Mp"] = []string{"a,1"}
+	add(r)
+	r = f("param", "", "user=alice", "map-typed header parameter with an ill-typed value")
+	r.Header["X-Mp"] = []string{"a,b"}
+	add(r)
 	r = f("valid", "", "user=alice&age=3", "valid form of unknown length (chunked)")
 	r.NoLength = true
 	add(r)
